@@ -112,6 +112,41 @@ func checkC09(c *Ctx) {
 		rd.Check(len(problems) == 0, s.F.Name(), desc, s.Call.Pos(), "guard called and error re-tested before the statement is sent", strings.Join(problems, "; "), "facts: "+strings.Join(facts.List(), ", "))
 	}
 
+	// ---- C09.order ----
+	// "A chain that does supply a condition is never rejected": the guard must see every condition the
+	// executor itself contributes (model keys, soft-delete modifiers), i.e. it runs after all of them.
+	rord := c.Rule("C09.order", "ORDER: in the update/delete executors no WHERE clause / model clause is added after the missing-WHERE guard ran", 2)
+	{
+		stmtT0 := p.Named(pkgGorm, "Statement")
+		addClause0 := p.Method(stmtT0, "AddClause")
+		for f, reg := range execs {
+			if f != reg.Fn || (reg.Pipeline != "update" && reg.Pipeline != "delete") {
+				continue
+			}
+			info := f.Pkg.TypesInfo
+			for _, call := range callsIn(f) {
+				if !guardNames[calleeName(info, call)] {
+					continue
+				}
+				c.Touch(f)
+				late := p.Guards(f, nil).Reaches(call.Pos(), func(n ast.Node) bool {
+					found := false
+					ast.Inspect(n, func(x ast.Node) bool {
+						if ce, ok := x.(*ast.CallExpr); ok {
+							fn, _ := typeutil.Callee(info, ce).(*types.Func)
+							if fn == addClause0 || (fn != nil && (fn.Name() == "ConvertToAssignments" || fn.Name() == "Build") && fn.Pkg() != nil && strings.HasPrefix(fn.Pkg().Path(), pkgGorm)) {
+								found = true
+							}
+						}
+						return true
+					})
+					return found
+				})
+				rord.Check(!late, f.Name(), "guard runs after the statement is complete", call.Pos(), "no clause is added or built after the guard", "clauses are still added (or the statement is built) after the missing-WHERE guard ran in "+reg.Name+": the guard judges an incomplete statement - conditions from the model's primary key / soft-delete rewrite are not seen (false ErrMissingWhereClause) or added too late")
+			}
+		}
+	}
+
 	// ---- C09.decision ----
 	rdec := c.Rule("C09.decision", "path enumeration over the missing-WHERE guard: raises on some path; every non-raising path is justified", 3)
 	cfgT := p.Named(pkgGorm, "Config")
